@@ -92,14 +92,36 @@ func init() {
 		return &IfaceV{V: &CtxV{Name: name, Cancel: at}}
 	}
 	I[rtPkg+"Offer"] = func(ex *Exec, a []Value) Value {
-		ch := a[0].(*ChanV)
+		var ch *ChanV
+		switch x := a[0].(type) {
+		case *ChanV:
+			ch = x
+		case *IfaceV:
+			ch = x.V.(*ChanV)
+		}
 		ch.Offered = a[1].(*Term)
-		ch.OfferV = a[2]
+		if iv, ok := a[2].(*IfaceV); ok && iv.T != nil {
+			ch.OfferV = iv.V
+			if _, isIface := ch.Elem.Underlying().(*types.Interface); isIface {
+				ch.OfferV = iv
+			}
+		}
 		return nil
 	}
 	I[rtPkg+"SetNow"] = func(ex *Exec, a []Value) Value {
 		ex.clock = a[0].(*Term)
+		ex.readings = nil
 		return nil
+	}
+	I[rtPkg+"ClockReading"] = func(ex *Exec, a []Value) Value {
+		i := a[0].(*Term)
+		if !i.IsConst() || i.SignedVal() < 1 || int(i.SignedVal()) > len(ex.readings) {
+			panic(pathEnd{"clock reading not taken on this path"})
+		}
+		return ex.readings[i.SignedVal()-1]
+	}
+	I[rtPkg+"ClockReadings"] = func(ex *Exec, a []Value) Value {
+		return ex.ts.IntS(SInt(64, true), int64(len(ex.readings)))
 	}
 	I[rtPkg+"Now"] = func(ex *Exec, a []Value) Value {
 		if ex.clock == nil {
@@ -191,6 +213,7 @@ func init() {
 		}
 		ex.sess.AssertPC(ex.ts.And(ex.ts.IntCmp("le", lo, t), ex.ts.IntCmp("le", t, ex.ts.IntS(SInt(64, true), 1<<62))))
 		ex.clock = t
+		ex.readings = append(ex.readings, t)
 		return ex.timeValue(t)
 	}
 	I["(time.Time).UnixNano"] = func(ex *Exec, a []Value) Value { return ex.timeNanos(a[0]) }
